@@ -127,7 +127,13 @@ func CheckConvergenceConf(m *Model, devRaw Conf, where string) *Failure {
 				continue
 			}
 		}
-		return Failf("C01:B:stale-path", "%s: path %s is defined by no live intent any more but the device still holds %q\n%s", where, p, dev[p], ctxStr(m, devRaw))
+		sig := "C01:B:stale-leaf"
+		if ip.IsKeyLeaf() {
+			sig = "C01:B:stale-list-entry"
+		} else if ip.Node() != nil && ip.Node().Kind == KContainer {
+			sig = "C01:B:stale-presence-container"
+		}
+		return Failf(sig, "%s: path %s is defined by no live intent any more but the device still holds %q\n%s", where, p, dev[p], ctxStr(m, devRaw))
 	}
 	// (C) unmanaged configuration outside touched scopes is untouched
 	touched := m.touchedScopes()
